@@ -19,7 +19,8 @@
    accepted hits since the last reset (explicit, by timeout, or on completion with reset_on_complete). *)
 From Common Require Import Prelude.
 From Coq Require Import Permutation.
-From C18 Require Import Model Lemmas.
+From Coq Require Import Sorted.
+From C18 Require Import Model Lemmas Extra Delayed MBlock.
 Open Scope Z_scope.
 
 (* value = start + hit_value * (accepted hits since the last reset); hit_value = +-|interval| by direction.
@@ -178,3 +179,209 @@ Theorem timed_run_refines_exec :
               events_of (snd (trun_aux c now s groups)) = snd (exec c s h).
 Proof. intros c groups now s. exact (timed_run_refines_exec_l c groups now s). Qed.
 Print Assumptions timed_run_refines_exec.
+
+(* ================================================================================================ *)
+(* value formula per direction and for any interval (the sign of count_interval is overridden by the direction,
+   interval 0 never moves the counter) *)
+Theorem hit_value_direction :
+  forall c,
+    hit_value c = (if down c then - Z.abs (interval c) else Z.abs (interval c)) /\
+    (down c = true -> hit_value c <= 0) /\ (down c = false -> 0 <= hit_value c) /\
+    hit_value (mkCfg (ckind c) (nsteps c) (down c) (- interval c) (start c) (goal c) (roc c) (doc c) (window c)
+                     (timeout c) (boot_enabled c)) = hit_value c.
+Proof. exact hit_value_direction_l. Qed.
+Print Assumptions hit_value_direction.
+
+Theorem counter_value_by_direction :
+  forall c h,
+    ckind c = KCounter -> no_control h = true ->
+    let s := fst (exec c (init c) h) in
+    let n := snd (ghost c (init c) h (start c, 0)) in
+    0 <= n /\
+    (down c = false -> value s = start c + Z.abs (interval c) * n) /\
+    (down c = true -> value s = start c - Z.abs (interval c) * n) /\
+    (interval c = 0 -> value s = start c).
+Proof. exact counter_value_by_direction_l. Qed.
+Print Assumptions counter_value_by_direction.
+
+(* hit window boundary in the timed run: a hit at instant t while the window (deadline w) is open is counted iff
+   w <= t — a hit exactly at the window end counts, because the window's delay is due and fires first *)
+Theorem window_boundary :
+  forall c now s w t,
+    ckind c = KCounter -> enabled s = true -> ignore s = true -> win s = Some w -> tmo s = None ->
+    count_ev is_hit_ev (events_of (snd (trun_aux c now s [(t, [Count])]))) = if w <=? t then 1%nat else 0%nat.
+Proof. exact window_boundary_l. Qed.
+Print Assumptions window_boundary.
+
+(* ... in the other order at that instant (hit handled before the expiry) the hit is ignored *)
+Theorem window_boundary_other_order :
+  forall c s w,
+    ckind c = KCounter -> ignore s = true ->
+    snd (exec c s [(w, Count); (w, FireWindow)]) = [] /\ value (fst (exec c s [(w, Count); (w, FireWindow)])) = value s.
+Proof. exact window_boundary_other_order_l. Qed.
+Print Assumptions window_boundary_other_order.
+
+(* one event bound to steps k and k+1 of a sequence (handlers run in descending step order): exactly one step *)
+Theorem sequence_shared_event_one_step :
+  forall c t s k,
+    ckind c = KSequence -> enabled s = true -> value s = Z.of_nat k ->
+    let r := apply_ops c t s [Hit (S k); Hit k] in
+    count_ev is_hit_ev (snd r) = 1%nat /\
+    (Z.of_nat k + 1 < Z.of_nat (nsteps c) -> value (fst r) = Z.of_nat k + 1 /\ count_ev is_complete_ev (snd r) = 0%nat).
+Proof. exact sequence_shared_event_l. Qed.
+Print Assumptions sequence_shared_event_one_step.
+
+(* ================================================================================================ *)
+(* delayed control events (Delayed.v): every posted event is delivered exactly once, at post time + delay ... *)
+Theorem delivery_each_post_once :
+  forall ps, Permutation (dgroups ps) (flat_map post_groups ps).
+Proof. exact dgroups_perm. Qed.
+Print Assumptions delivery_each_post_once.
+
+(* ... in the order of the due instants ... *)
+Theorem delivery_in_time_order :
+  forall ps, StronglySorted gle (dgroups ps).
+Proof. exact dgroups_sorted. Qed.
+Print Assumptions delivery_in_time_order.
+
+(* ... a new delivery goes behind everything that is due no later (posting order preserved at equal instants) *)
+Theorem delivery_order_preserved :
+  forall d ops g, StronglySorted gle g ->
+    insert d ops g = filter (fun x => fst x <=? d) g ++ (d, ops) :: filter (fun x => negb (fst x <=? d)) g.
+Proof. exact insert_spec. Qed.
+Print Assumptions delivery_order_preserved.
+
+(* ... so as many operations of every sort are delivered as were posted: none replaces another *)
+Theorem delivered_count :
+  forall p ps, n_ops p (dgroups ps) = posted p ps.
+Proof. exact delivered_count_l. Qed.
+Print Assumptions delivered_count.
+
+(* end to end: an always-enabled counter without window, timeout and goal counts every posted hit and posts one hit
+   event for each, whatever the delays of the count events and however close together they are posted *)
+Theorem delayed_counter_counts_every_post :
+  forall c ps,
+    plain_counter c -> count_posts ps ->
+    let r := trun_aux c 0 (init c) (dgroups ps) in
+    value (fst r) = start c + hit_value c * Z.of_nat (length ps) /\
+    count_ev is_hit_ev (events_of (snd r)) = length ps.
+Proof. exact delayed_counter_counts_every_post_l. Qed.
+Print Assumptions delayed_counter_counts_every_post.
+
+(* the run with delayed control events is an execution of a history: all theorems over histories apply to it *)
+Theorem delayed_run_refines_exec :
+  forall c ps,
+    exists h, fst (trun_aux c 0 (init c) (dgroups ps)) = fst (exec c (init c) h) /\
+              events_of (snd (trun_aux c 0 (init c) (dgroups ps))) = snd (exec c (init c) h).
+Proof. exact delayed_run_refines_exec_l. Qed.
+Print Assumptions delayed_run_refines_exec.
+
+(* ================================================================================================ *)
+(* blocks configured in a mode (MBlock.v) *)
+
+(* while the mode is not running nothing happens and nothing is posted *)
+Theorem mode_stopped_ignores_ops :
+  forall mc t ms o, mrun ms = None -> mstep mc t ms (MOp o) = (ms, []).
+Proof. exact mode_stopped_ignores_ops_l. Qed.
+Print Assumptions mode_stopped_ignores_ops.
+
+(* while it runs an operation is exactly the block's step under the current template values: every per-step theorem
+   above (hit events, completion once, reset/disable on complete, window) holds for mode-level blocks *)
+Theorem mode_running_is_block_step :
+  forall mc t ms s o, mrun ms = Some s ->
+    mstep mc t ms (MOp o) = (mkMS (mcur ms) (Some (fst (step (mcur ms) t s o))) (msaved ms), snd (step (mcur ms) t s o)).
+Proof. exact mode_running_is_block_step_l. Qed.
+Print Assumptions mode_running_is_block_step.
+
+(* mode stop: no events; the state is dropped, or kept in the player with persist_state — value, steps, enabled and
+   completed unchanged, both delays cancelled and the hit window closed *)
+Theorem mode_stop_drops_or_keeps_state :
+  forall mc t ms s, mrun ms = Some s ->
+    let r := mstep mc t ms MStop in
+    mrun (fst r) = None /\ snd r = [] /\
+    msaved (fst r) = (if mpersist mc then Some (drop_delays s) else None) /\
+    value (drop_delays s) = value s /\ steps (drop_delays s) = steps s /\ enabled (drop_delays s) = enabled s /\
+    completed (drop_delays s) = completed s /\ ignore (drop_delays s) = false /\
+    tmo (drop_delays s) = None /\ win (drop_delays s) = None.
+Proof. exact mode_stop_l. Qed.
+Print Assumptions mode_stop_drops_or_keeps_state.
+
+(* mode start: a kept state is used again as it is (one update event, no enable, no timeout); otherwise a fresh state
+   at the start value, enabled iff start_enabled (default: no enable_events), the timeout armed iff enabled *)
+Theorem mode_start_fresh_or_restored :
+  forall mc t ms, mrun ms = None ->
+    let r := mstep mc t ms MStart in
+    let c := mcur ms in
+    match restore mc ms with
+    | Some s => mrun (fst r) = Some s /\ snd r = [upd s]
+    | None =>
+        exists s, mrun (fst r) = Some s /\
+          value s = start_value c /\ steps s = start_steps c /\ completed s = false /\ ignore s = false /\ win s = None /\
+          enabled s = eff_start mc /\
+          tmo s = (if eff_start mc && (0 <? timeout c) then Some (t + timeout c) else None) /\
+          snd r = (if eff_start mc then [EUpdated (start_value c) (start_steps c) true] else [])
+                  ++ [EUpdated (start_value c) (start_steps c) (eff_start mc)]
+    end.
+Proof. exact mode_start_l. Qed.
+Print Assumptions mode_start_fresh_or_restored.
+
+Theorem mode_restart :
+  forall mc t t' ms s, mrun ms = Some s ->
+    let m1 := fst (mstep mc t ms MStop) in
+    let r := mstep mc t' m1 MStart in
+    if mpersist mc
+    then mrun (fst r) = Some (drop_delays s) /\ snd r = [EUpdated (value s) (steps s) (enabled s)]
+    else exists s', mrun (fst r) = Some s' /\ value s' = start_value (mcur ms) /\ steps s' = start_steps (mcur ms) /\
+                    completed s' = false /\ enabled s' = eff_start mc.
+Proof. exact mode_restart_l. Qed.
+Print Assumptions mode_restart.
+
+(* value formula over every mode-level history (starts, stops, operations while running or not, changing
+   starting_count / count_complete_value templates) *)
+Theorem mode_counter_value_formula :
+  forall mc c h,
+    ckind c = KCounter ->
+    let m := fst (mexec mc (mkMS c None None) h) in
+    let bn := mghost mc (mkMS c None None) h (start c, 0) in
+    forall s, mrun m = Some s -> value s = fst bn + hit_value c * snd bn.
+Proof. exact mode_counter_value_formula_l. Qed.
+Print Assumptions mode_counter_value_formula.
+
+(* hit and completion events of a mode-level history: one per accepted hit / per completion, only while running *)
+Theorem mode_hit_events :
+  forall mc t ms o,
+    count_ev is_hit_ev (snd (mstep mc t ms o)) =
+    match o, mrun ms with
+    | MOp o', Some s => if accepted (mcur ms) s o' then 1%nat else 0%nat
+    | _, _ => 0%nat
+    end.
+Proof. exact mstep_hit_events. Qed.
+Print Assumptions mode_hit_events.
+
+Theorem mode_complete_once :
+  forall mc t ms o,
+    count_ev is_complete_ev (snd (mstep mc t ms o)) =
+    match o, mrun ms with
+    | MOp o', Some s => if completes (mcur ms) s o' then 1%nat else 0%nat
+    | _, _ => 0%nat
+    end.
+Proof. exact mstep_complete_events. Qed.
+Print Assumptions mode_complete_once.
+
+(* count_complete_value is re-evaluated: after the template's value changed the next operation is judged against it *)
+Theorem goal_template_reevaluated :
+  forall mc t ms s g o,
+    mrun ms = Some s ->
+    let m1 := fst (mstep mc t ms (MSetGoal g)) in
+    mrun m1 = Some s /\ goal (mcur m1) = Some g /\
+    count_ev is_complete_ev (snd (mstep mc t m1 (MOp o))) =
+      (if completes (set_goal (mcur ms) (Some g)) s o then 1%nat else 0%nat).
+Proof. exact goal_reevaluated_l. Qed.
+Print Assumptions goal_template_reevaluated.
+
+Theorem mode_timed_run_refines_mexec :
+  forall mc groups now ms,
+    exists h, fst (mtrun_aux mc now ms groups) = fst (mexec mc ms h) /\
+              mevents_of (snd (mtrun_aux mc now ms groups)) = snd (mexec mc ms h).
+Proof. intros mc groups now ms. exact (mode_timed_run_refines_mexec_l mc groups now ms). Qed.
+Print Assumptions mode_timed_run_refines_mexec.
